@@ -51,6 +51,10 @@ func Generated(path string) bool {
 	return strings.HasSuffix(path, "/mock") || strings.Contains(path, "/mock/") || strings.HasPrefix(path, Module+"/proto")
 }
 
+// Overlay, when set, replaces the content of the named source files for the
+// loader (used by the mutation self-test; nothing is written to /repo).
+var Overlay map[string][]byte
+
 // Load type-checks every product package of repo from source (dependencies come
 // from export data) with the given GOOS/GOARCH ("" = host) and builds SSA for
 // them when withSSA is set.
@@ -76,8 +80,9 @@ func Load(repo string, goos, goarch string, withSSA bool) (*World, error) {
 		Mode:  packages.LoadSyntax | packages.NeedModule,
 		Dir:   repo,
 		Fset:  fset,
-		Env:   filtered,
-		Tests: false,
+		Env:     filtered,
+		Tests:   false,
+		Overlay: Overlay,
 	}
 	pkgs, err := packages.Load(cfg, universePatterns...)
 	if err != nil {
